@@ -1,3 +1,10 @@
+"""C05 finding F7 (DESIGN.md 6): _process_userauth_request overwrites conn._username while an auth object created for
+the previous user is still live (it is cancelled only later, inside the _finish_userauth task).
+History: valid password for alice with an asynchronous validator, then a pipelined request for bob ->
+the pending check for alice completes and send_userauth_success() authenticates conn._username == 'bob'.
+Failing obligations: C05.connection.SSHConnection._process_userauth_request#post(class-inv-J) and
+#post(guarantee-live-auth-keeps-its-user).  Proposed patch: c05_proposed_fix.diff (first hunk).
+"""
 import asyncio, asyncssh
 from asyncssh.packet import String, Boolean
 from asyncssh.constants import MSG_USERAUTH_REQUEST
